@@ -256,15 +256,19 @@ SPECIAL_DATES = [('02', '29'), ('02', '30'), ('02', '28'), ('04', '31'), ('12', 
                  ('13', '01'), ('06', '00'), ('02', '00')]
 
 
-def leap_numbers(name, slices, **opts):
+LEAP_DATES = (('00', '02', '29'), ('04', '02', '29'), ('96', '02', '29'), ('00', '02', '28'), ('99', '12', '31'))
+
+
+def leap_numbers(name, slices, dates=LEAP_DATES, **opts):
     """Deterministic list: valid numbers whose date was set to 29 February of a year that is a leap year in one century
-    but not in the neighbouring one (00), of an ordinary leap year (04, 96) and to 28 February; check digits repaired."""
+    but not in the neighbouring one (00), of an ordinary leap year (04, 96) and to 28 February (or to the given yy, mm, dd
+    triples); check digits repaired."""
     ysl, msl, dsl = slices
     out = []
     for v in pool(name, **opts)[:3]:
         if not all(c.isdigit() for c in v[msl] + v[dsl] + v[ysl]):
             continue
-        for yy, mm, dd in (('00', '02', '29'), ('04', '02', '29'), ('96', '02', '29'), ('00', '02', '28'), ('99', '12', '31')):
+        for yy, mm, dd in dates:
             w = list(v)
             w[msl], w[dsl] = list(mm), list(dd)
             w[ysl] = list((v[ysl][:-2] + yy)[-len(v[ysl]):])
